@@ -54,6 +54,7 @@ def main():
     ap.add_argument("--runs", default=None)
     ap.add_argument("--keep", action="store_true")
     ap.add_argument("--repo", default="/repo")
+    ap.add_argument("--out", default=None, help="write the results as JSON (e.g. /verif/sensitivity.json)")
     args = ap.parse_args()
     only = set(args.only.split(",")) if args.only else None
     sys.path.insert(0, VERIF)
@@ -100,6 +101,11 @@ def main():
     if not args.keep:
         shutil.rmtree(SCRATCH, ignore_errors=True)
     print(json.dumps({"all_ok": ok_all, "n": len(results)}))
+    if args.out:
+        head = run(["git", "-C", args.repo, "rev-parse", "--short", "HEAD"]).stdout.strip()
+        with open(args.out, "w") as f:
+            json.dump({"repo_head": head, "tier": args.tier, "all_ok": ok_all, "results": results,
+                       "mutants": [{k: m[k] for k in ("name", "file", "old", "new", "props", "expect")} for m in M if not only or m["name"] in only]}, f, indent=1)
     return 0 if ok_all else 1
 
 
